@@ -2,7 +2,7 @@ CONSTANTS
   Part = "enum"
   G = {"g1", "g2"}
   Programs <- ProgEnum3
-  NExch = 2  WholeCall = TRUE  Locked = TRUE
+  NExch = 2  WholeCall = TRUE  Locked = TRUE  NotifyInside = TRUE
   V = {"v1"} DocOf <- DocOf1 SignTime <- SignTimeAB ValidAt <- ValidAtAB PerCallContext = TRUE
   C = {"c1"}
 INIT Init
